@@ -141,6 +141,9 @@ def envelope_configs(tier):
     add("udn_as_connected_reverse_current", "udn", dict(ex, reverse_current=True))
     add("udn_as_connected_psi_increasing", "udn", ex, sign=-1.0)
     add("udn_as_connected_psi_increasing_reverse_current", "udn", dict(ex, reverse_current=True), sign=-1.0)
+    # the rarely used non-linear smoothing of the curvature, with and without a toroidal field (Bt = 0 makes a curvature component identically zero)
+    add("smoothnl", "lsn", dict(SN, curvature_smoothing="smoothnl"))
+    add("smoothnl_noBt", "lsn", dict(SN, curvature_smoothing="smoothnl"), fpol="none", pressure=False)
     add("negative_ny", "lsn", dict(SN, ny_sol=-4), expect="error")
     add("float_nx", "lsn", dict(SN, nx_core=2.5), expect="error")
     add("bad_curvature_type", "lsn", dict(SN, curvature_type="bxkappa"), expect="error")
@@ -227,7 +230,7 @@ def run(chk):
             if c.get("expect") == "error":
                 chk.fail(f"invalid-option-accepted:{c['name']}", "an invalid option value is accepted and a grid is written", {"config": c})
             uo = g.d["mesh"]["user_options"]
-            for key, msg in validity(g.d["file"], documented, orthogonal=bool(uo.get("orthogonal", True)), has_pressure=True):
+            for key, msg in validity(g.d["file"], documented, orthogonal=bool(uo.get("orthogonal", True)), has_pressure=g.d["inputs"].get("pressure") is not None):
                 chk.fail(f"malformed:{key}", "generation did not raise but the grid file is malformed: " + msg, {"grid": c["name"], "config": c})
             n += len(documented)
         else:
